@@ -21,11 +21,14 @@ def run(ctx):
     exe = vlib.build_engine("xsched", "plain")
     scratch = vlib.scratch_dir("C08")
     env = vlib.scrub_env({"MALLOC_ARENA_MAX": "1"}, scratch=scratch)
-    deadline = ctx["deadline"] or (240 if tier == "quick" else 1500)
+    deadline = ctx["deadline"] or (300 if tier == "quick" else 2400)
     if tier == "quick":
         cfgs = [(s, 2, 3) for s in SCEN] + [(s, 3, 2) for s in SCEN]
     else:
-        cfgs = [(s, 2, 5) for s in SCEN] + [(s, 3, 3) for s in SCEN]
+        # measured (one process): codemem/2 threads bound 4 = 98 k schedules, emulate/2 bound 4 = 33 k, once/2 bound 4 = 12 k;
+        # 3 threads at bound 3 exceed 10^5 schedules for once/codemem/emulate and are left to bound 2
+        deep = {"init": (6, 4), "run": (6, 4), "once": (5, 2), "codemem": (4, 2), "emulate": (4, 2)}
+        cfgs = [(s, 2, deep[s][0]) for s in SCEN] + [(s, 3, deep[s][1]) for s in SCEN]
     res = vlib.Results()
     # lower bounds first (each engine run iterates 0..bound when unpartitioned); the top bound is split into parts
     args = []
